@@ -222,21 +222,21 @@ func bitAlphabet(w uint) []uint64 {
 }
 
 var (
-	dS3  = genStrs("s3", []string{"a", "b", "é"}, 3)                      // 40
-	dS4  = genStrs("s4", []string{"a", "b", "é"}, 4)                      // 121 (thorough)
-	dS2  = genStrs("s2", []string{"a", "b", "é"}, 2)                      // 13
-	dS1  = genStrs("s1", []string{"a", "B", "é", " ", "\xff", "世"}, 3)    // 259: single-argument functions
-	dSX  = genStrs("sx", []string{"a", "é", "\xff", "世"}, 3)              // 85: rune/func arguments
+	dS3  = genStrs("s3", []string{"a", "b", "é"}, 3)                        // 40
+	dS4  = genStrs("s4", []string{"a", "b", "é"}, 4)                        // 121 (thorough)
+	dS2  = genStrs("s2", []string{"a", "b", "é"}, 2)                        // 13
+	dS1  = genStrs("s1", []string{"a", "B", "é", " ", "\xff", "世"}, 3)      // 259: single-argument functions
+	dSX  = genStrs("sx", []string{"a", "é", "\xff", "世"}, 3)                // 85: rune/func arguments
 	dSC  = genStrs("sc", []string{"a", "A", "é", "É", "k", "K", "\xff"}, 2) // 57: case folding
 	dNew = litStr("new", []string{"", "x", "éé"}, true)
-	dU8  = genStrs("u8", []string{"A", "\x80", "\x8f", "\x90", "\x9f", "\xa0", "\xbf", "\xc1", "\xc2", "\xe0", "\xed", "\xf0", "\xf4"}, 4) // 30941
+	dU8  = genStrs("u8", []string{"A", "\x80", "\x8f", "\x90", "\x9f", "\xa0", "\xbf", "\xc1", "\xc2", "\xe0", "\xed", "\xf0", "\xf4"}, 4)  // 30941
 	dU8s = genStrs("u8s", []string{"A", "\x80", "\x8f", "\x90", "\x9f", "\xa0", "\xbf", "\xc1", "\xc2", "\xe0", "\xed", "\xf0", "\xf4"}, 3) // 2380
 	dP14 = func(n int) *dom {
 		return genStrs(fmt.Sprintf("p14_%d", n), []string{"0", "1", "9", "+", "-", "_", ".", "e", "x", "a", "f", "\"", "\\", " "}, n)
 	}
-	dI64  = litInt("i64", intAlphabet(), false)
-	dU64  = litUint("u64", uintAlphabet(), false)
-	dBase = ctl("base", 2, 8, 10, 16, 36)
+	dI64    = litInt("i64", intAlphabet(), false)
+	dU64    = litUint("u64", uintAlphabet(), false)
+	dBase   = ctl("base", 2, 8, 10, 16, 36)
 	dRunesB = litInt("runesb", []int64{-1, 0, 0x41, 0x7f, 0x80, 0xe9, 0x7ff, 0x800, 0x4e16, 0xd7ff, 0xd800, 0xdbff, 0xdc00, 0xdfff, 0xe000, 0xfffd, 0xfffe, 0xffff, 0x10000, 0x10ffff, 0x110000, 0x7fffffff, -0x80000000}, false)
 )
 
@@ -275,9 +275,10 @@ func (f *fn) thorough() *fn        { f.Thorough = true; return f }
 func (f *fn) imports(s string) *fn { f.Imports = append(f.Imports, strings.Split(s, ",")...); return f }
 
 // sb instantiates a template for package strings and for package bytes.
-//   @P      package name
-//   @0 @1.. argument i converted to the package's text type (string / []byte)
-//   RS( RL( result folding of a text / list-of-text result
+//
+//	@P      package name
+//	@0 @1.. argument i converted to the package's text type (string / []byte)
+//	RS( RL( result folding of a text / list-of-text result
 func sb(name string, doms []*dom, tmpl string, bytesToo bool) []*fn {
 	inst := func(pkg string) *fn {
 		t := strings.ReplaceAll(tmpl, "@P", pkg)
@@ -713,8 +714,8 @@ rU(uint64(bits.RotateLeft32(x, int(a1))))`))
 	add(mk("bits.Div32", "math/bits", []*dom{dB32s, dB32s, dB32s}, "q, r := bits.Div32(uint32(a0), uint32(a1), uint32(a2))\nrU(uint64(q))\nrU(uint64(r))\nrU(uint64(bits.Rem32(uint32(a0), uint32(a1), uint32(a2))))").guard("a2 != 0 && a0 < a2"))
 
 	// ---------------------------------------------------------------- encoding/*
-	dB4 := genStrs("b4", []string{"\x00", "A", "\xfb", "\xff"}, 3)   // 85
-	dB2 := genStrs("b2", []string{"\x00", "\xff"}, 7)                // 255
+	dB4 := genStrs("b4", []string{"\x00", "A", "\xfb", "\xff"}, 3) // 85
+	dB2 := genStrs("b2", []string{"\x00", "\xff"}, 7)              // 255
 	const encDecl = `func b64(k int64) *base64.Encoding {
 	if k == 0 {
 		return base64.StdEncoding
